@@ -192,3 +192,144 @@ Example c19_nonvacuous_set_get :
   h_get (fun k : N => k) ring3
     (h_set N.eq_dec N.eq_dec (fun k : N => k) ring3 (fun _ _ => None) 25 (7 : N)) 25 = Some 7.
 Proof. vm_compute. reflexivity. Qed.
+
+(* =====================================================================================================
+   The CONCRETE ring.  cluster/MD5.v (RFC 1321 MD5 over byte strings), cluster/KetamaFloat.v (the float32
+   / float64 computation of the round count `limit`, on the standard library's SpecFloat — the executable
+   IEEE-754 specification Flocq's binary32/binary64 operations are built on) and cluster/KetamaConcrete.v
+   instantiate the abstract point function: [ring_of ls] is the ring ketama.go builds for the labels ls
+   (byte strings, weight 1 each), a function of the labels alone; [node_of ls key] = Continuum.Hash(key).
+   Correspondence: sub-command c19k / checks/Check19K.v recompute real rings and lookups from the labels.
+   ===================================================================================================== *)
+From Coq Require Import String.
+From Rend Require Import cluster.MD5 cluster.MD5Proofs cluster.KetamaFloat cluster.KetamaFloatProofs
+  cluster.KetamaConcrete cluster.KetamaConcreteProofs.
+
+(* ---- MD5 is MD5: the test suite of RFC 1321 §A.5 (messages of one, two and three blocks) ---- *)
+Theorem c19_md5_vectors :
+  md5 (asc "") = hx "d41d8cd98f00b204e9800998ecf8427e" /\
+  md5 (asc "a") = hx "0cc175b9c0f1b6a831c399e269772661" /\
+  md5 (asc "abc") = hx "900150983cd24fb0d6963f7d28e17f72" /\
+  md5 (asc "message digest") = hx "f96b697d7cb7938d525a2f31aaf161d0" /\
+  md5 (asc "abcdefghijklmnopqrstuvwxyz") = hx "c3fcd3d76192e4007dfb496cca67e13b" /\
+  md5 (asc "ABCDEFGHIJKLMNOPQRSTUVWXYZabcdefghijklmnopqrstuvwxyz0123456789")
+    = hx "d174ab98d277d9f5a5611c2c9f419d9f" /\
+  md5 (asc "12345678901234567890123456789012345678901234567890123456789012345678901234567890")
+    = hx "57edf4a22be3c955ac49da2e2107b67a".
+Proof. exact md5_rfc1321_vectors. Qed.
+Print Assumptions c19_md5_vectors.
+
+(* the 32-bit wrap of the model is arithmetic modulo 2^32; a digest has 16 bytes and yields 4 points < 2^32 *)
+Theorem c19_md5_shape : forall (m label : bytes) (k p : N),
+  (forall a b, add32 a b = (a + b) mod 2^32) /\ List.length (md5 m) = 16%nat /\
+  List.length (ketama_points label k) = 4%nat /\ (In p (ketama_points label k) -> p < 2^32).
+Proof. exact md5_shape. Qed.
+Print Assumptions c19_md5_shape.
+
+(* ---- limit := int(float32(float64(float32(1)/float32(n)) * 40.0 * float64(n))) for n equal-weight nodes:
+   40 rounds, except 39 at exactly the listed sizes (kernel-evaluated sweep over 1..4096) ---- *)
+Theorem c19_limit_equal_weights : forall n : N, 1 <= n <= 4096 ->
+  ketama_limit_eq n = (if existsb (N.eqb n) limit39_sizes then 39 else 40)
+  /\ 39 <= ketama_limit_eq n <= 40
+  /\ (ketama_limit_eq n = 39 <-> In n limit39_sizes)
+  /\ (n <= 60 -> ketama_limit_eq n = 40).
+Proof. exact limit_equal_weights_facts. Qed.
+Print Assumptions c19_limit_equal_weights.
+
+(* the list, spelled out: 61 is the first size with 156 points per node *)
+Example c19_limit39_sizes :
+  limit39_sizes =
+  [61; 122; 237; 244; 474; 488; 933; 948; 951; 953; 976; 1699; 1813; 1829; 1831; 1837; 1866; 1896;
+   1902; 1906; 1952; 1987; 2021; 2023; 3398; 3475; 3573; 3587; 3626; 3658; 3662; 3674; 3732; 3735;
+   3775; 3792; 3804; 3812; 3843; 3903; 3904; 3907; 3923; 3925; 3971; 3974; 3995; 4007; 4039; 4042;
+   4046; 4067; 4071] /\ ketama_limit_eq 61 = 39 /\ ketama_limit_eq 32 = 40.
+Proof. repeat split; vm_compute; reflexivity. Qed.
+
+(* unequal weights (not used by rend, whose Node.Weight() is 1): n <= 16 buckets with every weight in 1..8.
+   A bucket of weight w in a list of total weight [total] gets floor(40*n*w/total) rounds, one less at the 4
+   listed (n, w, total) = (11, 1|2|4|8, 55) — where 40*n*w is divisible by total — and never 0. *)
+Theorem c19_limit_weighted : forall n w total : Z,
+  (1 <= n <= 16)%Z -> (1 <= w <= 8)%Z -> (w + (n - 1) <= total <= w + 8 * (n - 1))%Z ->
+  ketama_limit w total n =
+    ((40 * n * w) / total - (if existsb (triple_eqb (n, w, total)) weighted_minus1 then 1 else 0))%Z
+  /\ (1 <= ketama_limit w total n)%Z
+  /\ ((40 * n * w) / total - 1 <= ketama_limit w total n <= (40 * n * w) / total)%Z
+  /\ ((40 * n * w) mod total <> 0 -> ketama_limit w total n = (40 * n * w) / total)%Z.
+Proof. exact limit_weighted. Qed.
+Print Assumptions c19_limit_weighted.
+
+(* the model is sensitive to the float32 steps: without the final conversion to float32 (seeded change C19)
+   25, 29 and 31 nodes would get 39 rounds; with float64 throughout, 7, 14 and 28 *)
+Theorem c19_limit_variants_differ :
+  filter (fun n => negb (Z.eqb (ketama_limit_no_f32_round 1 n n) (ketama_limit 1 n n))) (zrange 1 32) = [25; 29; 31]%Z
+  /\ filter (fun n => negb (Z.eqb (ketama_limit_all_f64 1 n n) (ketama_limit 1 n n))) (zrange 1 32) = [7; 14; 28]%Z.
+Proof. exact limit_variants_differ. Qed.
+Print Assumptions c19_limit_variants_differ.
+
+(* ---- the concrete ring is a ring of the abstract model (so every theorem above applies to it) ---- *)
+Theorem c19_concrete_ring : forall ls : list bytes,
+  is_ring_tb (kpts (ketama_limit_eq (len ls))) bytes_le ls (ring_of ls)
+  /\ is_ring (kpts (ketama_limit_eq (len ls))) ls (ring_of ls)
+  /\ (forall a, bytes_le a a) /\ (forall a b c, bytes_le a b -> bytes_le b c -> bytes_le a c)
+  /\ (forall a b, bytes_le a b -> bytes_le b a -> a = b) /\ (forall a b, bytes_le a b \/ bytes_le b a).
+Proof. exact concrete_ring_facts. Qed.
+Print Assumptions c19_concrete_ring.
+
+(* conversely: whatever sorting algorithm produced it, a (point,label)-sorted permutation of the entries IS
+   [ring_of ls] — the model's ring is the only one the fixed Less admits *)
+Theorem c19_concrete_ring_unique : forall (ls : list bytes) (r : list (N * bytes)),
+  is_ring_tb (kpts (ketama_limit_eq (len ls))) bytes_le ls r -> r = ring_of ls.
+Proof. exact ring_of_unique. Qed.
+Print Assumptions c19_concrete_ring_unique.
+
+(* ---- every node gets ring points (the provable half of "every node receives a share"): with up to 4096
+   equal-weight nodes each listed node owns 156 or 160 entries of the ring ---- *)
+Theorem c19_every_node_has_points : forall (ls : list bytes) (l : bytes),
+  1 <= len ls <= 4096 -> In l ls ->
+  (len (kpts (ketama_limit_eq (len ls)) l) = 156 \/ len (kpts (ketama_limit_eq (len ls)) l) = 160)
+  /\ exists p, In (p, l) (ring_of ls).
+Proof. exact every_node_has_points. Qed.
+Print Assumptions c19_every_node_has_points.
+
+Theorem c19_concrete_ring_size : forall ls : list bytes,
+  len (ring_of ls) = 4 * ketama_limit_eq (len ls) * len ls.
+Proof. exact ring_of_length. Qed.
+Print Assumptions c19_concrete_ring_size.
+
+(* ---- order independence, concretely and without premise: the ring itself, hence the node of every key ---- *)
+Theorem c19_concrete_order_independent : forall (ls ls' : list bytes),
+  Permutation ls ls' ->
+  ring_of ls' = ring_of ls /\ forall key, node_of ls' key = node_of ls key.
+Proof. exact concrete_order_independent. Qed.
+Print Assumptions c19_concrete_order_independent.
+
+(* ---- removal locality, concretely: removing node x re-routes only x's keys — provided the round count is
+   the same for both sizes, which is a theorem up to 60 nodes (and false from 61 to 60) ---- *)
+Theorem c19_concrete_removal : forall (ls ls' : list bytes) (x key : bytes),
+  (forall l, In l ls' <-> In l ls /\ l <> x) ->
+  ketama_limit_eq (len ls') = ketama_limit_eq (len ls) ->
+  node_of ls key <> Some x -> node_of ls' key = node_of ls key.
+Proof. exact node_of_removal. Qed.
+Print Assumptions c19_concrete_removal.
+
+Theorem c19_concrete_removal_upto_60 : forall (ls ls' : list bytes) (x key : bytes),
+  (forall l, In l ls' <-> In l ls /\ l <> x) ->
+  1 <= len ls' -> len ls' <= 60 -> len ls <= 60 ->
+  node_of ls key <> Some x -> node_of ls' key = node_of ls key.
+Proof. exact node_of_removal_upto_60. Qed.
+Print Assumptions c19_concrete_removal_upto_60.
+
+(* what the correspondence check evaluates ([ring_of_w], explicit weights) is [ring_of] for weights 1 *)
+Theorem c19_concrete_weights_one : forall ls : list bytes,
+  len ls < 4294967296 -> ring_of_w (map (fun l => (l, 1)) ls) = ring_of ls.
+Proof. exact ring_of_w_ones. Qed.
+Print Assumptions c19_concrete_weights_one.
+
+(* non-vacuity: a three-node ring computed from the labels alone (values as crypto/md5 gives them) *)
+Example c19_nonvacuous_concrete :
+  len (ring_of demo_labels) = 480
+  /\ ketama_points (asc "10.0.0.1:11211") 0 = [1644766326; 266575842; 1549369152; 2004188753]
+  /\ ring_of [asc "10.0.0.3:11211"; asc "10.0.0.1:11211"; asc "10.0.0.2:11211"] = ring_of demo_labels
+  /\ node_of demo_labels (asc "hello") = node_of (rev demo_labels) (asc "hello")
+  /\ node_of demo_labels (asc "hello") <> None.
+Proof. exact demo_ring_facts. Qed.
